@@ -1,4 +1,71 @@
-import RbModel.Morx
+/-
+  C17 — AAT morx subtables run as the extended state-machine model prescribes.
+  Property theorems only; helper lemmas are in Lemmas/Morx.lean, the declarative side in Spec/Aat.lean.
+-/
+import RbModel.Lemmas.Morx
+
 namespace RbModel.Morx
-theorem C17_stub : True := trivial
+open RbModel.Spec.Aat
+
+/-! ## rearrangement -/
+
+/-- **C17_rearrange.** For every one of the 16 verbs, every choice of the glyph records `A B C D`, every
+    middle run `x` (any length, any content) and every surrounding context, the nibble-driven code of
+    `RearrangementCtx::transition` (decoded `MAP[verb]`, the `buf[4]` juggling and the two directional
+    copy loops) turns a marked range that matches the left pattern of Apple's verb table into the right
+    pattern — and the result is a permutation of the records of the range.
+    A range that instantiates the left pattern is exactly a range that is "long enough" for the verb
+    (`l + r ≤ end - start`, third conjunct). The MAP table is the one regenerated from the Rust source
+    (`Gen.Morx.rearrMap`), so a changed nibble breaks this theorem. -/
+theorem C17_rearrange (v : Nat) (hv : v < 16) (σ : Asg G) (pre post : List G) :
+    rearrangeCore (pre ++ inst σ (verbTable v).1 ++ post).toArray pre.length
+        (pre.length + (inst σ (verbTable v).1).length)
+        (verbParams v).1 (verbParams v).2.1 (verbParams v).2.2.1 (verbParams v).2.2.2
+      = .ok (pre ++ inst σ (verbTable v).2 ++ post).toArray
+    ∧ (inst σ (verbTable v).2).Perm (inst σ (verbTable v).1)
+    ∧ (verbParams v).1 + (verbParams v).2.1 ≤ (inst σ (verbTable v).1).length :=
+  ⟨rearrange_table σ pre post v hv, inst_perm_table σ v hv, inst_long_enough σ v hv⟩
+
+/-- non-vacuity / sanity: verb 11 (`ABxD ⇒ DxBA`) on a concrete buffer with a 3-glyph middle. -/
+example :
+    rearrangeCore #[⟨9, 0⟩, ⟨1, 1⟩, ⟨2, 2⟩, ⟨5, 3⟩, ⟨6, 4⟩, ⟨7, 5⟩, ⟨4, 6⟩, ⟨8, 7⟩] 1 7
+        (verbParams 11).1 (verbParams 11).2.1 (verbParams 11).2.2.1 (verbParams 11).2.2.2
+      = .ok #[⟨9, 0⟩, ⟨4, 6⟩, ⟨5, 3⟩, ⟨6, 4⟩, ⟨7, 5⟩, ⟨2, 2⟩, ⟨1, 1⟩, ⟨8, 7⟩] := by rfl
+
+/-- the executable form of the verb table (used by the search oracle) agrees with the pattern form. -/
+theorem C17_rearrange_applyVerb (v : Nat) (hv : v < 16) (σ : Asg G) :
+    applyVerb v (inst σ (verbTable v).1) = some (inst σ (verbTable v).2) :=
+  applyVerb_inst σ v hv
+
+/-! ## the driver terminates -/
+
+/-- **C17_drive_terminates** (in-place subtables: rearrangement and contextual).
+    `driveLoopO` is defined by well-founded recursion on `psi` = the code's own budget (remaining `max_ops`,
+    look-ahead), with a guard that returns `none` if an iteration fails to decrease it. For every state
+    table, every lookup, every buffer in the in-place mode (`have_output = false`, `idx ≤ len`) the guard
+    never fires, and the loop performs at most `(len - idx) + max(max_ops, 0) + 1` iterations:
+    an iteration either consumes a glyph or — only with DONT_ADVANCE — one unit of `max_ops`, and once
+    `max_ops ≤ 0` it always consumes a glyph. -/
+theorem C17_drive_terminates (m : Machine) (rf : Array Range) (sf : Nat) (b : Buf) (cs : CS) (st : Nat)
+    (lr : Option Nat) (steps : Nat) (ho : b.haveOutput = false) (hi : b.idx ≤ b.len) :
+    (driveLoopO m rearrCtx rf sf b cs st lr steps ≠ .ok none ∧
+      ∀ b' k, driveLoopO m rearrCtx rf sf b cs st lr steps = .ok (some (b', k)) →
+        k ≤ steps + (b.len - b.idx) + b.maxOps.toNat + 1) ∧
+    (∀ lks : Nat → Option Lookup,
+      driveLoopO m (ctxCtx lks) rf sf b cs st lr steps ≠ .ok none ∧
+      ∀ b' k, driveLoopO m (ctxCtx lks) rf sf b cs st lr steps = .ok (some (b', k)) →
+        k ≤ steps + (b.len - b.idx) + b.maxOps.toNat + 1) := by
+  constructor
+  · have := driveLoop_inplace (m := m) rearr_keepsCtl rf sf (mu b) b cs st lr steps (Nat.le_refl _) ho hi
+    exact ⟨this.1, fun b' k h => by have := this.2 b' k h; simp only [mu] at this; omega⟩
+  · intro lks
+    have := driveLoop_inplace (m := m) (ctx_keepsCtl lks) rf sf (mu b) b cs st lr steps (Nat.le_refl _) ho hi
+    exact ⟨this.1, fun b' k h => by have := this.2 b' k h; simp only [mu] at this; omega⟩
+
+/-- non-vacuity of the hypotheses: the state `drive` starts an in-place subtable in. -/
+example : ∃ b : Buf, b.haveOutput = false ∧ b.idx ≤ b.len ∧ b.len = 3 ∧ b.maxOps = 16384 :=
+  ⟨{ info := #[⟨1, 0⟩, ⟨2, 1⟩, ⟨3, 2⟩], out := #[], idx := 0, len := 3, outLen := 0,
+     haveOutput := false, sepOut := false, successful := true, maxLen := 16384, maxOps := 16384,
+     level := 0, backward := false, vertical := false }, rfl, by decide, rfl, rfl⟩
+
 end RbModel.Morx
